@@ -113,6 +113,85 @@ impl Dom for Even {
     }
 }
 
+
+/// Harness domain: 0..2048 with two multi-value holes that straddle page boundaries
+/// ([500, 523] across 512 and [1000, 1030] across 1024): discontinuous, 1 993 values.
+#[derive(Clone, Copy, PartialEq, Eq, PartialOrd, Ord, Debug, Hash)]
+pub struct Holes(pub u16);
+const HOLE1: (u32, u32) = (500, 523);
+const HOLE2: (u32, u32) = (1000, 1030);
+const HOLES_END: u32 = 2048;
+fn in_holes_domain(v: u32) -> bool {
+    v < HOLES_END && !(HOLE1.0..=HOLE1.1).contains(&v) && !(HOLE2.0..=HOLE2.1).contains(&v)
+}
+impl Domain for Holes {
+    fn to_u32(&self) -> u32 {
+        self.0 as u32
+    }
+    fn contains(value: u32) -> bool {
+        in_holes_domain(value)
+    }
+    fn from_u32(member: InDomain) -> Self {
+        Holes(member.value() as u16)
+    }
+    fn is_continuous() -> bool {
+        false
+    }
+    fn ordered_values() -> impl DoubleEndedIterator<Item = u32> {
+        (0..HOLE1.0).chain(HOLE1.1 + 1..HOLE2.0).chain(HOLE2.1 + 1..HOLES_END)
+    }
+    fn ordered_values_range(range: RangeInclusive<Self>) -> impl DoubleEndedIterator<Item = u32> {
+        let lo = range.start().0 as u32;
+        let hi = range.end().0 as u32;
+        let clip = move |a: u32, b: u32| {
+            // half-open [a, b) clipped to [lo, hi]
+            let s = a.max(lo);
+            let e = b.min(hi.saturating_add(1));
+            if lo <= hi && s < e {
+                s..e
+            } else {
+                0..0
+            }
+        };
+        clip(0, HOLE1.0).chain(clip(HOLE1.1 + 1, HOLE2.0)).chain(clip(HOLE2.1 + 1, HOLES_END))
+    }
+    fn count() -> u64 {
+        (HOLES_END - (HOLE1.1 - HOLE1.0 + 1) - (HOLE2.1 - HOLE2.0 + 1)) as u64
+    }
+}
+impl Dom for Holes {
+    const NAME: &'static str = "Holes2048";
+    const N: u64 = (HOLES_END - (HOLE1.1 - HOLE1.0 + 1) - (HOLE2.1 - HOLE2.0 + 1)) as u64;
+    // landmarks in index space: the first value after each hole
+    const P1: u64 = HOLE1.0 as u64;
+    const P2: u64 = (HOLE2.0 - (HOLE1.1 - HOLE1.0 + 1)) as u64;
+    fn val(i: u64) -> Self {
+        let i = i as u32;
+        let w1 = HOLE1.1 - HOLE1.0 + 1;
+        let w2 = HOLE2.1 - HOLE2.0 + 1;
+        let v = if i < HOLE1.0 {
+            i
+        } else if i + w1 < HOLE2.0 {
+            i + w1
+        } else {
+            i + w1 + w2
+        };
+        Holes(v as u16)
+    }
+    fn idx(self) -> u64 {
+        let v = self.0 as u32;
+        let w1 = HOLE1.1 - HOLE1.0 + 1;
+        let w2 = HOLE2.1 - HOLE2.0 + 1;
+        (if v < HOLE1.0 {
+            v
+        } else if v < HOLE2.0 {
+            v - w1
+        } else {
+            v - w1 - w2
+        }) as u64
+    }
+}
+
 macro_rules! dom_prim {
     ($t:ty, $name:expr, $n:expr, $val:expr, $idx:expr) => {
         impl Dom for $t {
@@ -810,15 +889,19 @@ pub fn bfs_level_sync<T: Dom>(sys: &Sys<T>, depth: usize, threads_parallel: bool
     for _level in 1..=depth {
         let mut next: Vec<State<T>> = vec![];
         for chunk in frontier.chunks(1024) {
+            // successors whose key is already known (from earlier levels or earlier chunks) are dropped
+            // inside the parallel phase: `seen` is read-only while a chunk is expanded
+            let seen_ref = &seen;
+            let keep = move |s: &State<T>| s.failed.is_some() || !seen_ref.contains(&s.key);
             let succ: Vec<State<T>> = if threads_parallel {
                 chunk
                     .par_iter()
-                    .flat_map_iter(|st| (0..na).map(move |ai| sys.step(st, ai, false)))
+                    .flat_map_iter(|st| (0..na).map(move |ai| sys.step(st, ai, false)).filter(keep))
                     .collect()
             } else {
-                chunk.iter().flat_map(|st| (0..na).map(move |ai| sys.step(st, ai, false))).collect()
+                chunk.iter().flat_map(|st| (0..na).map(move |ai| sys.step(st, ai, false)).filter(keep)).collect()
             };
-            res.transitions += succ.len() as u64;
+            res.transitions += (chunk.len() * na) as u64;
             // deterministic order: chunk order, state order, action order
             let mut fresh: Vec<State<T>> = vec![];
             for s in succ {
